@@ -170,6 +170,8 @@ def rule_per_validator_resolver(ctx, rid="R18.4"):
     cfg = cfg_of(init)
     r = ctx.rule(rid, "a validator without an explicit resolver builds its own from its own schema; all resolver state is created per instance", floor=8)
     s, sp = init.params[0], init.params[1]
+    from .c02 import _valsem
+    csem = _valsem(ctx, "classes_eval")
     ok = False
     for n in walk_body(init):
         if isinstance(n, ast.If) and norm(n.test) == "resolver is None":
@@ -180,12 +182,29 @@ def rule_per_validator_resolver(ctx, rid="R18.4"):
                             and b.value.args and norm(b.value.args[0]) == sp:
                         ok = True
     stored = any(isinstance(n, ast.Assign) and norm(n.targets[0]) == "%s.resolver" % s and norm(n.value) == "resolver" for n in walk_body(init))
+    if csem is not None:
+        ok = stored = csem["own-resolver"] is None
     if ok and stored:
         r.ok(site(init), "resolver is None -> RefResolver.from_schema(<own schema>) stored on self")
     else:
-        r.fail("%s|own-resolver" % init.qual, site(init), "a validator without explicit resolver does not build a fresh one from its own schema (fresh=%s, stored=%s)" % (ok, stored))
+        r.fail("%s|own-resolver" % init.qual, site(init), (csem or {}).get("own-resolver") or
+               "a validator without explicit resolver does not build a fresh one from its own schema (fresh=%s, stored=%s)" % (ok, stored))
     rinit = find_method(prog, "validators.RefResolver", "__init__")
     rs = rinit.params[0]
+    from .c15 import _init_sem
+    sem = _init_sem(ctx)
+    if sem and "raises" not in sem:
+        for attr in ("_scopes_stack", "store", "handlers", "_urljoin_cache", "_remote_cache", "referrer", "cache_remote"):
+            msg = sem["caches"] if "cache" in attr and attr != "cache_remote" else sem["state"]
+            if msg is None:
+                r.ok(site(rinit) + " [self.%s]" % attr, "its own object per resolver (two resolvers constructed and compared)")
+            else:
+                r.fail("%s|state|%s|semantic" % (rinit.qual, attr), site(rinit), msg)
+        a = rinit.node.args
+        for d in a.defaults:
+            if not (isinstance(d, ast.Constant) or (isinstance(d, ast.Tuple) and not d.elts)):
+                r.fail("%s|mutable-default|%s" % (rinit.qual, norm(d)), site(rinit), "RefResolver.__init__ has a mutable default argument %s" % norm(d))
+        return r
     want = {
         "_scopes_stack": lambda v: isinstance(v, ast.List),
         "store": lambda v: isinstance(v, ast.Call) and norm(v.func).endswith("URIDict"),
